@@ -13,6 +13,7 @@
 #include <cstdlib>
 #include <new>
 #include <set>
+#include <unordered_map>
 #include <algorithm>
 
 // ---------------------------------------------------------------------------------------------
@@ -182,13 +183,15 @@ struct Shared {
 	std::atomic<int> counterLock;
 	std::atomic<uint32_t> nCounters;
 	struct Counter { char name[72]; std::atomic<uint64_t> v; } counters[kMaxCounters];
-	struct Slot { std::atomic<int64_t> caseIdx; char sub[240]; } slots[kMaxWorkers];
+	struct Slot { std::atomic<int64_t> caseIdx; char sub[1000]; } slots[kMaxWorkers];
 	std::atomic<uint32_t> nSamples;
 	char samples[kMaxSamples][900];
 	std::atomic<uint32_t> nCaps;
 	char caps[8][120];
 	std::atomic<uint64_t> outcomes[kOutcomeSlots];
 	double deadline;     // absolute CLOCK_MONOTONIC seconds, 0 = none
+	std::atomic<int> slowLock;
+	struct Slow { double s; int64_t idx; } slow[8];
 };
 
 static Shared* g = nullptr;
@@ -205,7 +208,11 @@ static double nowS()
 
 void Ctx::count(const char* name, uint64_t n)
 {
+	// fast path: string literals have stable addresses
+	static std::unordered_map<const void*, int> byAddr;
 	static std::map<std::string, int> cache;
+	auto ia = byAddr.find(name);
+	if (ia != byAddr.end() && !std::strcmp(g->counters[ia->second].name, name)) { g->counters[ia->second].v.fetch_add(n); return; }
 	auto it = cache.find(name);
 	int idx;
 	if (it != cache.end()) idx = it->second;
@@ -223,6 +230,7 @@ void Ctx::count(const char* name, uint64_t n)
 		g->counterLock.store(0);
 		cache[name] = idx;
 	}
+	if (byAddr.size() < 4096) byAddr[name] = idx;
 	g->counters[idx].v.fetch_add(n);
 }
 
@@ -333,7 +341,12 @@ static void workerLoop(CheckDef& def, Ctx ctx, std::size_t n, int errFd)
 		uint64_t i = g->nextCase.fetch_add(1);
 		if (i >= n) break;
 		if (errFd >= 0) { if (ftruncate(errFd, 0) == 0) lseek(errFd, 0, SEEK_SET); }
+		double c0 = nowS();
 		runOneCase(def, ctx, i, def.caseTimeoutS);
+		double dt = nowS() - c0;
+		while (g->slowLock.exchange(1)) {}
+		{ int m = 0; for (int k = 1; k < 8; ++k) if (g->slow[k].s < g->slow[m].s) m = k; if (dt > g->slow[m].s) { g->slow[m].s = dt; g->slow[m].idx = int64_t(i); } }
+		g->slowLock.store(0);
 		g->casesDone.fetch_add(1);
 	}
 	removeTree(gScratchRoot + "/w" + std::to_string(ctx.worker));
@@ -389,6 +402,7 @@ static int runIsolated(CheckDef& def, Ctx ctx, std::size_t i, int timeoutS, cons
 		if (fd >= 0) { dup2(fd, 2); }
 		setLimits(def);
 		ctx.worker = kMaxWorkers - 1;
+		ctx.replaying = true;
 		gViolFd = -1; // replays do not record oracle violations a second time
 		runOneCase(def, ctx, i, timeoutS);
 		removeTree(gScratchRoot + "/w" + std::to_string(ctx.worker));
@@ -412,6 +426,9 @@ static void writeStats(const CheckDef& def, const Ctx& ctx, std::size_t n, doubl
 		(unsigned long long)g->violations.load(), (unsigned long long)g->nOutcomes.load());
 	std::fprintf(f, " \"crash_violations\": %llu,\n \"unreproduced_deaths\": %llu,\n \"caps_hit\": %llu,\n \"complete\": %s,\n \"workers\": %d,\n \"wall_s\": %.3f,\n",
 		(unsigned long long)crashes, (unsigned long long)unreproduced, (unsigned long long)g->capsHit.load(), complete ? "true" : "false", workers, wall);
+	std::fprintf(f, " \"slowest_cases\": [");
+	{ bool first = true; for (int k = 0; k < 8; ++k) if (g->slow[k].s > 0) { std::fprintf(f, "%s{\"case\": %lld, \"s\": %.2f, \"what\": %s}", first ? "" : ", ", (long long)g->slow[k].idx, g->slow[k].s, jstr(gDef && gDef->describe ? gDef->describe(std::size_t(g->slow[k].idx)) : std::string()).c_str()); first = false; } }
+	std::fprintf(f, "],\n");
 	std::fprintf(f, " \"caps\": [");
 	uint32_t nc = std::min<uint32_t>(g->nCaps.load(), 8);
 	for (uint32_t i = 0; i < nc; ++i) std::fprintf(f, "%s%s", i ? ", " : "", jstr(g->caps[i]).c_str());
@@ -481,7 +498,7 @@ int Main(int argc, char** argv, CheckDef& def)
 		std::printf("replaying %s tier=%s case=%ld%s\n", def.id.c_str(), ctx.tier.c_str(), singleCase,
 			def.describe ? (" : " + def.describe(std::size_t(singleCase))).c_str() : "");
 		std::fflush(stdout);
-		runOneCase(def, ctx, std::size_t(singleCase), def.caseTimeoutS * 10);
+		runOneCase(def, ctx, std::size_t(singleCase), def.caseTimeoutS * 4);
 		uint64_t v = g->violations.load();
 		std::printf("replay finished: %llu violation(s)\n", (unsigned long long)v);
 		removeTree(gScratchRoot);
@@ -529,9 +546,10 @@ int Main(int argc, char** argv, CheckDef& def)
 			std::string rerr;
 			for (int rep = 0; rep < 2 && same; ++rep) {
 				std::string rp = outDir + "/replay_w" + std::to_string(w) + ".err";
-				int to = cls == "timeout" ? def.caseTimeoutS * 10 : def.caseTimeoutS * 3;
+				int to = def.caseTimeoutS * 2;   // a replayed case gets twice the limit before it is called a hang
 				int st2 = runIsolated(def, ctx, std::size_t(ci), to, rp);
 				rerr = headOf(rp);
+				if (g->slots[kMaxWorkers - 1].sub[0]) subLabel = g->slots[kMaxWorkers - 1].sub;   // detailed label written by the replay
 				std::string cls2 = classify(st2, tailOf(rp));
 				bool died = !(WIFEXITED(st2) && WEXITSTATUS(st2) == 0);
 				if (!died || cls2 != cls) same = false;
